@@ -252,6 +252,13 @@ def gen_glue():
     map_tree = ast.parse(open(os.path.join(REPO, "src", "werkzeug", "routing", "map.py")).read())
     enc = [_norm(x) for x in _no_doc(_fn(map_tree, "MapAdapter", "encode_query_args").body)]
     mru = [_norm(x) for x in _no_doc(_fn(map_tree, "MapAdapter", "make_redirect_url").body)]
+    # statements of the (implementation of) MapAdapter.match in front of its `try:`
+    ma = [n for n in next(n for n in map_tree.body if isinstance(n, ast.ClassDef) and n.name == "MapAdapter").body if isinstance(n, ast.FunctionDef) and n.name == "match"][-1]
+    prelude = []
+    for st in _no_doc(ma.body):
+        if isinstance(st, ast.Try):
+            break
+        prelude.append(_norm(st))
     tail = match_tail(matcher_tree)
     lits = merge_literals()
     body = f"""namespace Wz.Gen.RoutingGlue
@@ -279,6 +286,10 @@ def providesDefaultsFor : List String := {lean_list([lean_str(x) for x in texts[
 /-- control skeleton of the inner `_match` of `StateMachineMatcher.match`: every `if` / `for` header, `raise` and
 `return`, in source order -/
 def matchSkeleton : List String := {lean_list([lean_str(x) for x in tests], 1)}
+
+/-- statements of `MapAdapter.match` in front of its `try:` (what happens to path_info, method, domain part before
+the matcher sees them) -/
+def matchPrelude : List String := {lean_list([lean_str(x) for x in prelude], 1)}
 
 /-- body of `MapAdapter.encode_query_args` -/
 def encodeQueryArgs : List String := {lean_list([lean_str(x) for x in enc], 1)}
